@@ -122,6 +122,13 @@ CHECKS["C09"] = dict(
     design="4 (C09)",
 )
 
+CHECKS["C08"] = dict(
+    technique="Coq proof (order independence of the grammar analysis as a corollary of the exactness theorems of C05; shape-only dependence of registration; gene-only dependence of mapping) + a structural scan of /repo regenerated on every run (every iteration over an address-ordered set must be in the committed, justified inventory) + identical seeded searches run twice per process and in processes differing in PYTHONHASHSEED, allocation before class definition and import order",
+    text="3 theorems (Props/C08.v, closed under the global context): for every class hierarchy and ANY two iteration orders of the symbol set (default depth mode) the analysis yields the same registered symbols and productions in the same order, the same recursive set, the same declarations and the same finite minimum depths; registration depends only on the shape of the classes; GE mapping consults only the genes. Tied to /repo by (a) the regenerated inventory of set-iteration sites (15 sites, each with the reason its order cannot matter) and (b) ~30 searches per check (GP, random search, hill climbing, 1+1 x tree, GE, SGE, dSGE, stack x plain, weighted and concrete-start grammars), each run twice in one process and in three processes with different hash seeds, allocation patterns and import orders: identical digest of the sequence of programs handed to the fitness function, identical best program and fitness.",
+    note="PARTIAL: memory-address-dependent iteration order and process state are runtime behaviour; the model abstracts them as a permutation parameter (proved irrelevant for the analysis) and the check observes real processes. CPython's random.Random(seed) determinism is trusted. Wall-clock budgets are excluded by the property.",
+    design="4 (C08)",
+)
+
 ALL = [f"C{n:02d}" for n in range(1, 21)]
 
 m = {
